@@ -473,6 +473,14 @@ const AMD64REGISTERS: &[X86Register] = &[
         mode: Mode::Amd64,
     },
     X86Register {
+        name: "spl",
+        capstone_reg: x86_reg::X86_REG_SPL,
+        full_reg: x86_reg::X86_REG_RSP,
+        offset: 0,
+        bits: 8,
+        mode: Mode::Amd64,
+    },
+    X86Register {
         name: "sp",
         capstone_reg: x86_reg::X86_REG_SP,
         full_reg: x86_reg::X86_REG_RSP,
